@@ -1,5 +1,5 @@
 """C33: hy.unmangle inverts hy.mangle up to mangling (Engine A, grade R)."""
-from checks.C32 import ALPH, ASCII, string_obs
+from checks.C32 import ALPH, ASCII, string_obs, cand_obs, CANDS, DOTTED_CANDS
 from vf.xh import Ob
 
 PREAMBLE = '''\
@@ -20,6 +20,8 @@ def spec(tier, seed):
          "    for n in range(%d):" % len(frags), "        if i == n: a = FR[n]", "        if j == n: b = FR[n]", "        if k == n: c = FR[n]",
          "    return unmangle_ok(a + b + c)"]
     obs.append(Ob("hfrag", "\n".join(L), sample="unmangle(mangle(a+b+c)) for fragments %r" % frags, group="fragments"))
+    obs += cand_obs(1, "hcand", "unmangle round trip", alone=("+\u0308",))
+    obs += cand_obs(3, "hdotcand", "unmangle round trip (dotted names)")
     tw = "\n".join(["def twin0(rest: str) -> bool:", '    """', "    pre: len(rest) <= 1 and all(c in ALPH for c in rest)", "    post: _", '    """', "    unmangle_ok('a' + rest)", "    return False"])
     obs.append(Ob("twin0", tw, twin=True, group="twin"))
     return {
@@ -33,7 +35,7 @@ def spec(tier, seed):
         "functions_encoded": ["hy.reader.mangling.unmangle", "hy.reader.mangling.mangle"],
         "bounds": "names of length 1..%d over the alphabet %r (names whose part after the leading underscores starts with hyx_ excluded, as the property states)%s; all triples of the "
                   "fragments %r" % (maxlen, ALPH, " plus printable ASCII at length <= 2" if tier == "thorough" else "", frags),
-        "outside": "every other Unicode code point; longer names; dotted names (the property speaks of names, and mangle treats dots specially)",
+        "outside": "every other Unicode code point; longer names except the %d + %d hand-picked ones (dotted names included among them)" % (len(CANDS), len(DOTTED_CANDS)),
         "stubs": [],
         "assumptions": [],
     }
